@@ -4,7 +4,7 @@
 //! 4, 8, n bytes little-endian from the same cursor. Faults: fail at call k, fail at byte b,
 //! exhaustion of a finite tape.
 
-use crate::monitor::TapeExhausted;
+use crate::monitor::{RngLivelock, TapeExhausted};
 use crate::prng::Xoshiro;
 use rand_core::{RngCore, TryRngCore};
 use serde::{Deserialize, Serialize};
@@ -122,7 +122,13 @@ pub struct Tape {
     pub events_dropped: u64,
     pub by_method: [u64; 3],
     remaining: u64,
+    /// consecutive calls answered with an error (the library keeps calling a failing RNG)
+    consec_faults: u64,
 }
+
+/// Liveness bound of the device itself: a library call that keeps invoking the RNG after this many
+/// consecutive errors is not going to return.
+pub const LIVELOCK_BOUND: u64 = 10_000;
 
 const MAX_EVENTS: usize = 256;
 
@@ -144,6 +150,7 @@ impl Tape {
             events_dropped: 0,
             by_method: [0; 3],
             remaining: plan.total_len(),
+            consec_faults: 0,
         };
         t.enter_seg();
         t
@@ -215,10 +222,17 @@ impl Tape {
         };
         if let Some(id) = fault {
             let f = SimRngFault { id, call };
-            self.faults_fired.push(f);
+            if self.faults_fired.len() < 64 {
+                self.faults_fired.push(f);
+            }
             self.record(method, buf.len(), Some(id));
+            self.consec_faults += 1;
+            if self.consec_faults > LIVELOCK_BOUND {
+                std::panic::panic_any(RngLivelock);
+            }
             return Err(f);
         }
+        self.consec_faults = 0;
         for b in buf.iter_mut() {
             *b = self.next_byte();
         }
